@@ -17,6 +17,8 @@ Judge(e) ==
     /\ IF e.ret = "ok" /\ ~heavy /\ e.sizes # [k \in 1..Len(e.blocks) |-> BlockSize(e.blocks[k])] THEN Rej(e, "C11.reported-size-equals-written-size") ELSE TRUE
     /\ IF e.ret = "ok" /\ heavy /\ (e.sizes # e.expect_sizes \/ e.written_len # e.expect_len) THEN Rej(e, "C11.reported-size-equals-written-size") ELSE TRUE
     /\ IF e.ret = "ok" /\ ~(Has(e, "readback_same") /\ e.readback_same) THEN Rej(e, "C11.reads-back-equal") ELSE TRUE
+    \* the writer takes any iterator over the blocks: what it writes depends on the blocks only
+    /\ IF e.ret = "ok" /\ Has(e, "iter_shapes_same") /\ ~e.iter_shapes_same THEN Rej(e, "C11.writer-independent-of-iterator-shape") ELSE TRUE
     /\ IF valid /\ e.ret \in {"err", "unbuildable"} THEN PrintT(<<"NOTE", e.id, l, "valid list refused", e.class, e.msg>>) ELSE TRUE
 Init == l = 1
 Next == l <= Len(Rec) /\ l' = l + 1 /\ (IF Rec[l].ev = "blocks" THEN Judge(Rec[l]) ELSE TRUE)
